@@ -17,6 +17,7 @@ package main
 import (
 	"bufio"
 	"bytes"
+	"compress/gzip"
 	"encoding/binary"
 	"errors"
 	"fmt"
@@ -71,6 +72,7 @@ const (
 	fSlowBody fault = "slowbody" // header, pause, body
 	fTrunc    fault = "trunc"    // body cut short, then the broker closes
 	fClose    fault = "close"    // the broker closes instead of answering
+	fStall    fault = "stall"    // the broker stalls in the MIDDLE of the body (after k bytes) past the caller's deadline, then goes on
 )
 
 type muxReq struct {
@@ -80,6 +82,7 @@ type muxReq struct {
 	tag  int
 	off  int64 // fetch offset
 	seq  int   // arrival index
+	gz   bool  // fetch: answer with a gzip-compressed batch followed by more bytes inside the same message set
 }
 
 type sentFrame struct {
@@ -101,6 +104,10 @@ type muxBroker struct {
 	gap    time.Duration
 	pause  time.Duration
 	r      *rand.Rand
+	stallK   int
+	stallFor time.Duration
+	rr       *rand.Rand // readLoop's own source (b.r belongs to sendLoop)
+	gzPct    int // per cent of fetch requests answered with the compressed form
 }
 
 func (b *muxBroker) readLoop() {
@@ -127,6 +134,7 @@ func (b *muxBroker) readLoop() {
 				}
 			case *fetch.Request:
 				q.tag = int(m.MaxWaitTime)
+				q.gz = b.rr.Intn(100) < b.gzPct
 				if len(m.Topics) == 1 && len(m.Topics[0].Partitions) == 1 {
 					q.off = m.Topics[0].Partitions[0].FetchOffset
 				}
@@ -172,10 +180,40 @@ func response(q muxReq, id int32, errCode int16) []byte {
 		m.Write(be32(uint32(len(val))))
 		m.Write(val)
 		var set bytes.Buffer
-		for k := int64(0); k < 4; k++ {
-			set.Write(be64(uint64(q.off + k)))
-			set.Write(be32(uint32(m.Len())))
-			set.Write(m.Bytes())
+		if q.gz {
+			// a compressed batch of three messages (relative offsets inside, the wrapper carries the last absolute
+			// offset) FOLLOWED by more bytes of the same message set.  A caller that closes the Batch after one
+			// record never parses them; they must be discarded from the wire with the rest of the response.  They
+			// spell a complete frame for the NEXT correlation id with a foreign payload, so that any leftover that
+			// is later mistaken for a response shows up as a wrong tag at the API.
+			var inner bytes.Buffer
+			for k := int64(0); k < 3; k++ {
+				inner.Write(be64(uint64(k)))
+				inner.Write(be32(uint32(m.Len())))
+				inner.Write(m.Bytes())
+			}
+			var zb bytes.Buffer
+			zw := gzip.NewWriter(&zb)
+			zw.Write(inner.Bytes())
+			zw.Close()
+			var w bytes.Buffer
+			w.Write(be32(0))
+			w.WriteByte(1) // magic
+			w.WriteByte(1) // attributes: gzip
+			w.Write(be64(1))
+			w.Write(be32(0xffffffff))
+			w.Write(be32(uint32(zb.Len())))
+			w.Write(zb.Bytes())
+			set.Write(be64(uint64(q.off + 2)))
+			set.Write(be32(uint32(w.Len())))
+			set.Write(w.Bytes())
+			set.Write(embeddedFrame(id + 1))
+		} else {
+			for k := int64(0); k < 4; k++ {
+				set.Write(be64(uint64(q.off + k)))
+				set.Write(be32(uint32(m.Len())))
+				set.Write(m.Bytes())
+			}
 		}
 		var body bytes.Buffer
 		body.Write(be32(uint32(id)))
@@ -201,6 +239,15 @@ func response(q muxReq, id int32, errCode int16) []byte {
 		panic(err)
 	}
 	return b
+}
+
+// foreignTag is a payload nobody asked for.
+const foreignTag = 888888
+
+// embeddedFrame is a complete, well-formed ListOffsets response frame for correlation id `id` carrying the
+// foreign payload: bytes a broker may legitimately have inside a response body (a record value, a string).
+func embeddedFrame(id int32) []byte {
+	return response(muxReq{key: 2, ver: 1, tag: foreignTag}, id, 0)
 }
 
 func (b *muxBroker) write(p []byte) bool {
@@ -266,6 +313,20 @@ func (b *muxBroker) sendLoop() {
 			case fTrunc:
 				b.write(frame[:len(frame)-3])
 				return false
+			case fStall:
+				// a well-formed response whose body is k genuine bytes, then (after a stall longer than the caller's
+				// deadline) the rest: payload bytes that happen to spell a frame for the next correlation id
+				body := frame[8:]
+				k := b.stallK % (len(body) + 1)
+				rest := append(append([]byte(nil), embeddedFrame(q.id+1)...), body[k:]...)
+				hdr := append(be32(uint32(4+k+len(rest))), frame[4:8]...)
+				if !b.write(append(hdr, body[:k]...)) {
+					return false
+				}
+				time.Sleep(b.stallFor)
+				if !b.write(rest) {
+					return false
+				}
 			default:
 				if !b.write(frame) {
 					return false
@@ -323,7 +384,10 @@ func errRes(err error) string {
 	return "err"
 }
 
-func connScenario(r *rand.Rand, thorough bool, single bool) {
+// connScenario runs one Conn scenario.  stallAt >= 0 selects the stall family: one caller, tagged ReadOffset
+// calls only, and the broker stalls in the middle of the body of the SECOND response after exactly stallAt body
+// bytes, past the caller's deadline, then sends the rest and answers what follows.
+func connScenario(r *rand.Rand, thorough bool, single bool, stallAt int) {
 	cl, sv := net.Pipe()
 	conn := kafka.NewConnWith(cl, kafka.ConnConfig{ClientID: "c06", Topic: "t", Partition: 0})
 	conn.Seek(0, kafka.SeekAbsolute|kafka.SeekDontCheck)
@@ -331,6 +395,9 @@ func connScenario(r *rand.Rand, thorough bool, single bool) {
 	perG := 1 + r.Intn(3)
 	if r.Intn(4) == 0 || single {
 		nG, perG = 1, 2+r.Intn(3)
+	}
+	if stallAt >= 0 {
+		nG, perG = 1, 4
 	}
 	b := &muxBroker{conn: sv, pending: make(chan muxReq, 64), done: make(chan struct{}), r: rand.New(rand.NewSource(r.Int63())),
 		batch: 1 + r.Intn(nG+1), order: []string{"fifo", "reverse", "random"}[r.Intn(3)], faults: map[int]fault{},
@@ -346,10 +413,20 @@ func connScenario(r *rand.Rand, thorough bool, single bool) {
 		// frame at the head of the buffer makes every waiter spin in waitResponse forever (each sees
 		// concurrency() > 1 and yields; Peek is served from the buffer, so no deadline ever fires) — a
 		// liveness problem outside C06, see docs/notes/C06.md.
-		kinds = []fault{fBogus, fDup, fBogus, fDup, fKafkaErr, fDrop}
+		kinds = []fault{fBogus, fDup, fStall, fStall, fStall, fKafkaErr, fDrop}
 	}
 	for i := 0; i < nf; i++ {
 		b.faults[r.Intn(total+1)] = kinds[r.Intn(len(kinds))]
+	}
+	b.gzPct = 50
+	if stallAt >= 0 {
+		b.faults = map[int]fault{1: fStall}
+		b.batch = 1
+	}
+	b.rr = rand.New(rand.NewSource(r.Int63()))
+	b.stallK = r.Intn(64)
+	if stallAt >= 0 {
+		b.stallK = stallAt
 	}
 	go b.readLoop()
 	go b.sendLoop()
@@ -368,6 +445,7 @@ func connScenario(r *rand.Rand, thorough bool, single bool) {
 	})
 	kafka.VerifStart()
 	deadline := time.Duration(40+r.Intn(80)) * time.Millisecond
+	b.stallFor = deadline + 30*time.Millisecond
 	var wg sync.WaitGroup
 	results := make([]callRes, 0, total)
 	tagBase := 1000 + r.Intn(1000)*100
@@ -376,6 +454,9 @@ func connScenario(r *rand.Rand, thorough bool, single bool) {
 		ops := make([]string, perG)
 		for i := range ops {
 			ops[i] = []string{"offset", "parts", "batch", "offset", "parts"}[r.Intn(5)]
+			if stallAt >= 0 {
+				ops[i] = "offset"
+			}
 		}
 		hold := time.Duration(r.Intn(3)) * time.Millisecond
 		go func(g int) {
@@ -545,9 +626,9 @@ func main() {
 	defer out.Flush()
 	r := gen.New()
 	thorough := gen.Thorough()
-	n := 150
+	n := 184
 	if thorough {
-		n = 1500
+		n = 1534
 	}
 	if len(os.Args) > 1 {
 		n, _ = strconv.Atoi(os.Args[1])
@@ -567,7 +648,12 @@ func main() {
 			}
 		}()
 		// the first fifth of the scenarios are single-caller ones (duplicates / foreign frames allowed)
-		connScenario(r, thorough, i < n/5)
+		// scenarios 0..33: the stall family, one per cut position k of the 33-byte ListOffsets body (and one beyond)
+		stallAt := -1
+		if i < 34 {
+			stallAt = i
+		}
+		connScenario(r, thorough, i < 34+n/5, stallAt)
 		out.Flush()
 		close(fin)
 	}
